@@ -176,8 +176,30 @@ def parse_fn(g, entry):
     return getattr(g, entry).parse
 
 
+_runaway = {}
+
+
+def _note_runaway(g, outcome):
+    k = id(g)
+    n, _ = _runaway.get(k, (0, None))
+    _runaway[k] = (n + 1, outcome)
+
+
 def observe(g, text, entry=None, pos=0, fullparse=True, guard=True):
     """One recorded call.  Returns Rec."""
+    # circuit breaker: a module that ran away twice (confirmed non-termination or memory
+    # exhaustion) is not executed again in this worker; the recorded outcome is repeated so the
+    # verdict stays 'violated' without paying for it on every input
+    ra = _runaway.get(id(g))
+    if ra is not None and ra[0] >= 2 and guard:
+        return Rec(ra[1])
+    r = _observe(g, text, entry, pos, fullparse, guard)
+    if r.outcome[0] == 'timeout' or (r.outcome[0] == 'other' and r.outcome[1] == 'MemoryError'):
+        _note_runaway(g, r.outcome)
+    return r
+
+
+def _observe(g, text, entry=None, pos=0, fullparse=True, guard=True):
     try:
         fn = parse_fn(g, entry)
     except Exception as e:
